@@ -77,6 +77,12 @@ def run(ctx):
                 seth = ",".join("seth:%d:%d:%d" % (k, h1[k], h2[k]) for k in keys)
                 ops = ["ins:%d" % k for k in order] + ["find:%d" % k for k in keys] + ["size", "era:%d" % keys[0]] + ["find:%d" % k for k in keys] + ["size"]
                 jobs.append(Job("set_lock", v, seth + ",audit;" + ",".join(ops) + ";size", "seq", 1, 0, 1, group="cuckoo"))
+    # 5. the same growth paths while other threads insert (slot expansion / bucket initialisation racing with inserts into the slot being expanded);
+    #    hash mode h3: hashes that differ only in a middle and the top bits (seeded change C17b)
+    from props.common import make_jobs
+    CONC = ["ins:1,ins:2,ins:3|ins:4,ins:5,era:1|find:3,ins:6,era:4;trav,size", "ins:1,ins:3|ins:5,ins:7,find:1|ins:2,ins:4,find:3;trav,size"]
+    jobs += make_jobs(ctx, "set_hash", ["feldman_hp_h3", "feldman_dhp_h3"], CONC, group_of=lambda v: "repl") + \
+            make_jobs(ctx, "set_hash", ["splitlist_michael_hp_h3"], CONC, group_of=lambda v: "other")
     vlib.run_jobs(ctx, jobs)
     vlib.validate_histories(ctx, jobs, "LinSet", SC.consts(replace=False, ordered=False), group="cuckoo")
     vlib.validate_histories(ctx, jobs, "LinSet", SC.consts(replace=False, ordered=False), group="other")
